@@ -200,6 +200,9 @@ def expand_cases_C06(tier, seed):
                 forms = [w, w.upper(), w.capitalize()]
                 for f in (forms if tier != 'quick' else [rnd.choice(forms)]):
                     out.append({'s': '%s:%s' % (k, f), 'c': {}, 'g': 'keyword', 'key': k, 'kw': w})
+    # function keywords (the listed signature when typed without arguments), also right after the same keyword typed WITH arguments
+    for ab, exp in [('trf:scale', 'transform: scale(x, y);'), ('trf:s', 'transform: scale(x, y);'), ('trf:scale(5)+trf:scale', 'transform: scale(5, y);\ntransform: scale(x, y);'), ('trf:t', 'transform: translate(x, y);'), ('trf:r', 'transform: rotate(angle);'), ('trf:r(9)+trf:r', 'transform: rotate(9);\ntransform: rotate(angle);')]:
+        out.append({'s': ab, 'c': {}, 'g': 'fn-keyword', 'key': 'trf', 'expect': exp})
     # user snippets: override and new key
     for _ in range(250 if tier == 'quick' else 800):
         k = rnd.choice([x for x in keys if x != 'lg']) if rnd.random() < .5 else rnd.choice(['zzq', 'myprop', 'xx', 'qq', 'foo', 'myPad', 'Zx', 'qW'])     # `lg` is the hard-wired gradient shortcut, resolved before any snippet lookup
@@ -261,6 +264,8 @@ def oracle_C05(case, o):
 def oracle_C06(case, o):
     from emmet.snippets import stylesheet_snippets
     if o[0] != 'ok': return ['no-output| expand(%r) -> %s %s' % (case['s'], o[0], o[1])]
+    if 'expect' in case:
+        return [] if strip_fields(o[1]) == case['expect'] else ['keyword| expand(%r) = %r, expected %r' % (case['s'], o[1], case['expect'])]
     opt = pinned_options(case, effective_options(case['c']))
     between, after = opt.get('stylesheet.between'), opt.get('stylesheet.after')
     got = strip_fields(o[1])
@@ -286,15 +291,31 @@ def oracle_C06(case, o):
     return []
 
 
+SECTION_CACHE = {}      # a cache first used by a call under the @@section scope
+EDIT_DONE = []
 SHARED_CACHE = {}      # one dictionary per worker process, shared by every C06 case that process runs (varying scopes / syntaxes)
 
 
 def run(case, prop):
     ab = case['s']; o = outcome(ab, mk(case['c']), case.get('gc'))
     viol = []
-    if prop == 'C05' and 'spec' in case: viol = oracle_C05(case, o)
+    if prop == 'C05' and 'spec' in case:
+        viol = oracle_C05(case, o)
+        if 'gc' not in case:
+            if not SECTION_CACHE: outcome('p10', dict(mk({'context': {'name': '@@section'}}), cache=SECTION_CACHE)); SECTION_CACHE.setdefault('~used~', 1) if False else None
+            o2 = outcome(ab, dict(mk(case['c']), cache=SECTION_CACHE))
+            if o2 != o: viol = viol + ['(with a cache first used under the @@section scope) ' + v for v in oracle_C05(case, o2)]
     elif prop == 'C06' and 'key' in case:
         viol = oracle_C06(case, o)
+        if not EDIT_DONE:
+            EDIT_DONE.append(1)
+            outcome('trf:scale(5)+trf:s(2)+trf:t(1, 2)+trf:r(9)', dict(mk({}), cache=SHARED_CACHE))      # function keywords typed with arguments, earlier, under the shared cache
+        if case['g'] == 'user' and 'snippets' in case['c']:
+            # the caller reuses ONE dictionary: first with another snippet table, then - edited in place - with this one
+            c0 = mk(dict(case['c'], snippets={'zzother': 'x-y:z'})); outcome('zzother', c0)
+            c0['snippets'] = copy.deepcopy(case['c']['snippets'])
+            o3 = outcome(ab, c0)
+            if o3 != o: viol = viol + ['(the same dictionary, edited in place after an earlier call) ' + v for v in oracle_C06(case, o3)]
         if 'snippets' not in case['c'] and 'gc' not in case:
             # the same call with a cache dictionary shared with earlier calls (other scopes / syntaxes) must select the same snippet
             c2 = mk(case['c']); c2['cache'] = SHARED_CACHE
